@@ -120,15 +120,18 @@ CLAIMED.update(
 CLAIMED.update(
     {
         "C08": (
-            "interprocedural GUARD-DOM of goal registration by the AstInfo oracle (NNF edge formulas with an explicit bypass set), inclusive-interval convention rule on scope_line_range components, selection-order classification, source/flag table agreement",
+            "interprocedural GUARD-DOM of goal registration by the AstInfo oracle (NNF edge formulas with an explicit bypass set), inclusive-interval convention rule on scope_line_range components, selection-order classification, source/flag table agreement; partition-representative evaluation of the exclusion oracle over a representative module",
             "Decides the clause 'no line, branch or code-object goal is registered without the exclusion oracle having admitted it': every register_line / "
             "register_predicate / register_code_object call is reachable only through an edge whose formula is a disjunction of the matching oracle literal and "
             "the two accepted bypass literals (ast_info is None, non-int lineno), in its own function or in every resolved caller (dispatch tables included); "
             "plus the shape clauses the oracle rests on: inclusive (start, end) at every range()/containment use of scope_line_range, outermost-first scope lookup, "
             "all exclusion sources unioned into no_cover_lines with each inline pattern gated by its own flag, ignore_methods feeding no_cover, no-cover before only-cover, "
             "universal quantification over enclosing definitions, one exclusion arm per enumerated compound-statement kind. "
-            "The line arithmetic of AstInfo on arbitrary modules and the converse clause (every executable line outside excluded code is a goal) are not decided.",
-            "Trusts the CFG builder and name-based call resolution restricted by the static class hierarchy.",
+            "In addition ModuleAstInfo / AstInfo are interpreted from source over a representative module (scopes nested to depth 3, decorated definitions, try / except / else / finally, for-else, while, "
+            "if / elif / else, else followed by a single if, match): every scope is found under its qualified name and by the first line of its code object (first decorator), a marker excludes exactly its own "
+            "line plus the block it heads, and a conditional jump on an excluded line is neither registered (every version) nor kept in the covered CDG. "
+            "Arbitrary modules and the converse clause (every executable line outside excluded code is a goal) are not decided.",
+            "Trusts the CFG builder, name-based call resolution restricted by the static class hierarchy, and sa/engine/peval.py (real ast nodes of the representative module are handed to the interpreted code).",
             "DESIGN.md §3 C08",
         ),
     }
